@@ -659,16 +659,18 @@ class IntermediateCodeGen(AbstractCodeGen):
 
         # symbol (oid as defval) or name for enumeration member
         else:
-            # oid
-            if (defvalType[0][0] == 'ObjectIdentifier' and
-                    (defval in self.symbolTable[self.moduleName[0]] or
-                     defval in self._importMap)):
+            # oid; symbol table and import map are keyed by translated names
+            symbol = isinstance(defval, str) and self.transOpers(defval) or defval
 
-                module = self._importMap.get(defval, self.moduleName[0])
+            if (defvalType[0][0] == 'ObjectIdentifier' and
+                    (symbol in self.symbolTable[self.moduleName[0]] or
+                     symbol in self._importMap)):
+
+                module = self._importMap.get(symbol, self.moduleName[0])
 
                 try:
                     val = str(self.genNumericOid(
-                        self.symbolTable[module][defval]['oid']))
+                        self.symbolTable[module][symbol]['oid']))
 
                     outDict.update(
                         value=val,
